@@ -150,6 +150,10 @@ class MNewton:
             if fx == 0:
                 break
             dfx = df(x)
+            if dfx == 0:
+                # stationary point: near a multiple root, f is down to
+                # rounding noise and x cannot be improved
+                break
             d2fx = d2f(x)
             # x = x - F(x)/F'(x) with F(x) = f(x)/f'(x)
             x -= fx / (dfx - fx * d2fx / dfx)
